@@ -23,7 +23,7 @@ func caseGen() *rapid.Generator[Case] {
 		max = 24
 	}
 	sg := gen.ScriptGen(gen.ScriptOpts{
-		Item:      mixed(),
+		AllowProps: true, AllowRowErr: true, AllowMutate: true, AllowReAdd: true, Item: mixed(),
 		MinOps:    1,
 		MaxOps:    max,
 		MaxCells:  4,
@@ -32,6 +32,9 @@ func caseGen() *rapid.Generator[Case] {
 	})
 	return rapid.Custom(func(t *rapid.T) Case {
 		c := Case{Script: sg.Draw(t, "script")}
+		if rapid.IntRange(0, 2).Draw(t, "pre?") == 0 {
+			c.Pre = 1 + rapid.IntRange(0, len(c.Script.Ops)).Draw(t, "pre")
+		}
 		if rapid.IntRange(0, 3).Draw(t, "fault?") == 0 {
 			c.Fault = 1 + rapid.IntRange(0, 12).Draw(t, "fault")
 		}
